@@ -1,5 +1,5 @@
 CONSTANTS
-  Keys <- Keys7  Vals <- Vals2  BKeys <- BKeys3  BVals <- Vals2
+  Keys <- Keys7  Vals <- Vals2  BKeys <- BKeys3  BVals <- BVals3
   MaxBatch = 3  MaxSnaps = 2  MaxDepth = 3
   Inits <- InitsKV  ProbeKeys <- Probe  IterTable <- IterTab
 SPECIFICATION Spec
